@@ -100,7 +100,7 @@ def Fields.expectedLen (f : Fields) : Nat := f.cellsStart + f.tot + f.crcLen
 def readFields (data : Bytes) : Option Fields :=
   (readFlags data).bind fun fl =>
   let size := fl.sizeBytes
-  if data.length < 5 + (1 + 5 * size) then none        -- `data_len - 5 < 1 + 5 * size_bytes`
+  if data.length < 5 + (1 + 3 * size) then none        -- `data_len - 5 < 1 + 3 * size_bytes`
   else (data[5]?).bind fun off =>
   if size = 0 then none
   else
